@@ -245,8 +245,18 @@ class Compiler:
                 )
                 return 0
 
+        link_address = Deferred[int](fn)
+        if state["link_base"]["promise"].settled:
+            # Evaluating the expression has set the link base itself, e.g. by compiling a postponed
+            # '.repeat' block with '. = X' inside
+            reports.error(
+                "address-conflict",
+                (state["insn"].ctx_start, state["insn"].ctx_end, "The link base cannot be set here because evaluating this expression sets the link base as well.")
+            )
+            return
+
         state["link_base"]["set_where"] = state["insn"]
-        state["link_base"]["promise"].settle(Deferred[int](fn))
+        state["link_base"]["promise"].settle(link_address)
 
 
     def declare_external_symbol(self, location, name, state):
